@@ -431,6 +431,24 @@ def build(ctx, release):
     return None, first_err
 
 
+# the property's anchored files, and the crate around them (scanned for target features only)
+ANCHORED = ["tiny-start/src/symbols"]
+WIDER = ["tiny-start/src"]
+_model_cache = {}
+
+
+def build_variant(ctx, v):
+    """the harness built another way (C.build_variants: target features the anchored files mention, mixed
+    debug-assertion settings, the standing `-C target-cpu=native`), at the glue level the default build settled on"""
+    first_err, how = None, ""
+    for level in range(_glue["level"], len(GLUE_LEVELS)):
+        exe, err, how = C.variant_build(ctx, "c08", v, extra_env={"C08_GLUE": GLUE_LEVELS[level]})
+        if exe is not None:
+            return exe, "", how.replace("RUSTFLAGS=", "C08_GLUE=%s RUSTFLAGS=" % GLUE_LEVELS[level])
+        first_err = first_err or err
+    return None, first_err, how
+
+
 SYMS = ("memcpy", "memmove", "memset", "memcmp", "bcmp")
 
 
@@ -485,9 +503,10 @@ def run(ctx):
                 "ends flush against an inaccessible (PROT_NONE) page or starts right after one, the other operand at every relative misalignment (0..=15 for n<=%d, 0..=7 above) "
                 "and, for memmove, at every overlap distance, for every n of the exhaustive range and of the mid sweep, compares with equal operands and with the first difference "
                 "at the last / first / a random byte, plus multi-page operands sampled from VERIF_SEED; a load or store in such a page is reported with the case; "
+                "the small / big / guard streams also run on each build variant of coverage.cfg_dimensions.variants (standing: -C target-cpu=native, release; one per target feature / mixed debug-assertion setting the anchored files mention); "
                 "distinct_nontrivial = distinct (op, n (bucketed above 48), dest mod 8, src mod 8, overlap class, guard placement) classes" % (nmax, 160 if quick else 320, 64 if quick else 128, nmax))
     ctx.assumptions += [
-        "the model Model/MemFns.lean describes tiny-start/src/symbols/mem.rs and the files below tiny-start/src/symbols/mem/ (checked by the correspondence streams of this run, debug and release builds of a textual copy of those files)",
+        "the model Model/MemFns.lean describes tiny-start/src/symbols/mem.rs and the files below tiny-start/src/symbols/mem/ (checked by the correspondence streams of this run: debug and release builds of a textual copy of those files, and every build variant of coverage.cfg_dimensions.variants - value / guard-page streams only, the store and load traces run on the dev build)",
         "a word access is 8 byte reads then 8 byte writes; misaligned word reads through read_usize_unaligned are allowed (x86-64/aarch64)",
         "C's preconditions: the objects do not wrap the address space (dest+n, src+n <= 2^64); memcpy's ranges do not overlap",
         "reads outside the operands: PROVED for the model (every load of memcpy/memmove lies in [src, src+n), of memcmp/bcmp in [s1, s1+n) or [s2, s2+n), memset loads nothing; every store lies in [dest, dest+n)) and "
@@ -531,11 +550,25 @@ def run(ctx):
         # what the `fwd` / `bwd` operations reach: the routine memcpy / memmove call (by whatever name, in whatever file),
         # or memmove itself when no such routine could be identified
         ctx.extra.setdefault("direct_copy_routines", {})[mode] = {"fwd": kv.get("fwd", "?"), "bwd": kv.get("bwd", "?"), "glue": kv.get("glue", "?")}
-        C.correspond(ctx, "small-" + mode, small, [exe], drv, judge, sig_of)
-        C.correspond(ctx, "big-" + mode, big, [exe], drv, judge, sig_of)
-        C.correspond(ctx, "guard-" + mode, guard, [exe], drv, judge, sig_of)
+        C.correspond(ctx, "small-" + mode, small, [exe], drv, judge, sig_of, model_cache=_model_cache)
+        C.correspond(ctx, "big-" + mode, big, [exe], drv, judge, sig_of, model_cache=_model_cache)
+        C.correspond(ctx, "guard-" + mode, guard, [exe], drv, judge, sig_of, model_cache=_model_cache)
         C.correspond(ctx, "malformed-" + mode, MALFORMED, [exe], drv,
                      lambda c, o: None if o == "bad-op" else "harness accepted a malformed case", sig_of)
+    # the same source built the other ways it can be built here: same lines, same oracle, the model's answers reused
+    _, vs = C.build_variants(ctx, ANCHORED, native_quick=True, wider=WIDER)
+    for v in vs:
+        exe, err, how = build_variant(ctx, v)
+        if exe is None:
+            ctx.broken.append({"harness_build_failed": err, "variant": v["tag"]})
+            ctx.violation({"kind": "harness-build-failed", "variant": v["tag"]},
+                          {"error": err, "build_variant": {"tag": v["tag"], "RUSTFLAGS": v["rustflags"]}, "how_to_replay": how,
+                           "note": "the same source does not build in this configuration"}, no_input=True)
+            continue
+        vv = dict(v, how=how)
+        C.correspond(ctx, "small-" + v["tag"], small, [exe], drv, judge, sig_of, variant=vv, model_cache=_model_cache)
+        C.correspond(ctx, "big-" + v["tag"], big, [exe], drv, judge, sig_of, variant=vv, model_cache=_model_cache)
+        C.correspond(ctx, "guard-" + v["tag"], guard, [exe], drv, judge, sig_of, variant=vv, model_cache=_model_cache)
     # write-set oracle (implementation vs the property, no model involved): the arena is read-only, every store of
     # the code under test faults and is recorded by address.  A store outside [dest, dest+n) is a violation even when
     # it rewrites the value that was there (invisible to every value comparison, visible to a concurrent observer).
